@@ -156,6 +156,30 @@ Proof.
   apply (rec_canonical_reenc ver prof compat level lsm1 sps pps ext r); try assumption; lia.
 Qed.
 
+(* Inversion: whatever well-formed byte string the record reader accepts (fresh receiver) IS an
+   ISO 5.2.4.1.1 record up to the six reserved bits of byte 4, the three of byte 5 and trailing
+   bytes: four scalar bytes, d4, d5, (d5 mod 32) length-prefixed non-empty SPS, a PPS count,
+   that many PPS, then [ext]; the values read are those fields.  And marshalling the result
+   writes the canonical form of the input: reserved bits set, every forbidden_zero_bit cleared,
+   [ext] dropped -- so every canonical input is reproduced exactly. *)
+Theorem c12_reader_inversion data r :
+  wf_bytes data -> rec_unmarshal rec0 data = (r, Ok tt) ->
+  exists d4 d5 (sps pps : list bytes) ext,
+    data = [r_ver r; r_prof r; r_compat r; r_level r; d4; d5] ++ spec_sets sps ++ [countN pps] ++ spec_sets pps ++ ext /\
+    d4 < 256 /\ d5 < 256 /\ r_lsm1 r = d4 mod 4 /\ countN sps = d5 mod 32 /\ countN pps < 256 /\
+    Forall (fun nb => nb <> [] /\ lenN nb <= 65535) sps /\ Forall (fun nb => nb <> [] /\ lenN nb <= 65535) pps /\
+    r_sps r = map split_nalu sps /\ r_pps r = map split_nalu pps /\
+    r_ver r < 256 /\ r_prof r < 256 /\ r_compat r < 256 /\ r_level r < 256.
+Proof. exact (rec_unmarshal_inv data r). Qed.
+
+Theorem c12_reenc_canonicalises data r :
+  wf_bytes data -> rec_unmarshal rec0 data = (r, Ok tt) ->
+  exists d4 d5 (sps pps : list bytes) ext,
+    data = [r_ver r; r_prof r; r_compat r; r_level r; d4; d5] ++ spec_sets sps ++ [countN pps] ++ spec_sets pps ++ ext /\
+    rec_marshal r = [r_ver r; r_prof r; r_compat r; r_level r; 252 + d4 mod 4; 224 + d5 mod 32]
+                    ++ spec_sets (map clear_forbidden sps) ++ [countN pps] ++ spec_sets (map clear_forbidden pps).
+Proof. exact (rec_reenc_canonicalises data r). Qed.
+
 (* Totality: no byte string makes a reader panic, for any receiver state and -- for the sample
    reader -- any length size 1..256 (lsm1 any uint8; cd951da); the sample loop's fuel is never
    the reason for stopping. *)
@@ -215,6 +239,8 @@ Print Assumptions c12_unmarshal_appends.
 Print Assumptions c12_record_rt.
 Print Assumptions c12_iso_read.
 Print Assumptions c12_canonical_reenc.
+Print Assumptions c12_reader_inversion.
+Print Assumptions c12_reenc_canonicalises.
 Print Assumptions avc_nalu_dec_total.
 Print Assumptions avc_record_dec_total.
 Print Assumptions avc_sample_dec_total.
